@@ -31,10 +31,7 @@ Section P.
   Definition Core (x : option nat) (u : ustate) : Prop :=
     consistent (cs u) (present u) x /\ Forall qok (qlog u).
 
-  (* stale = true means: a get_positions_* call left a registered atom in the
-     wrong cell (C14-F6); nothing is claimed about the cell list from then on *)
-  Definition GoodX (x : option nat) (u : ustate) : Prop :=
-    alloc u /\ (stale u = false -> Core x u).
+  Definition GoodX (x : option nat) (u : ustate) : Prop := alloc u /\ Core x u.
   Definition Good : ustate -> Prop := GoodX None.
 
   (* ---- cell-level facts --------------------------------------------------- *)
@@ -218,44 +215,44 @@ Section P.
 
   Lemma P_add h u : GoodX (Some h) u -> Good (u_add size D h u).
   Proof.
-    intros [A G]. split; [exact A|]. intros S. destruct (G S) as [C Q].
+    intros [A G]. split; [exact A|]. destruct G as [C Q].
     split; [apply C_add; exact C | exact Q].
   Qed.
 
   Lemma P_remove a u : Good u -> present u a = true -> GoodX (Some a) (u_remove a u).
   Proof.
-    intros [A G] Hp. split; [exact A|]. intros S. destruct (G S) as [C Q].
+    intros [A G] Hp. split; [exact A|]. destruct G as [C Q].
     split; [apply C_remove; assumption | exact Q].
   Qed.
 
   Lemma P_remove_absent a u : Good u -> present u a = false -> Good (u_remove a u).
   Proof.
-    intros [A G] Hp. split; [exact A|]. intros S. destruct (G S) as [C Q].
+    intros [A G] Hp. split; [exact A|]. destruct G as [C Q].
     split; [|exact Q]. cbn [cs u_remove present]. rewrite (C_remove_absent _ _ _ C Hp). exact C.
   Qed.
 
   Lemma P_write_some h p u : GoodX (Some h) u -> GoodX (Some h) (u_write h p u).
   Proof.
-    intros [A G]. split; [exact A|]. intros S. destruct (G S) as [C Q].
+    intros [A G]. split; [exact A|]. destruct G as [C Q].
     split; [|exact Q]. apply C_write; [exact C|]. destruct C as (_ & _ & _ & X). apply (X h eq_refl).
   Qed.
 
   Lemma P_create p bs u : Good u -> GoodX (Some (next u)) (u_create p bs u).
   Proof.
-    intros [A G]. split; [apply alloc_create; exact A|]. intros S. destruct (G S) as [C Q].
+    intros [A G]. split; [apply alloc_create; exact A|]. destruct G as [C Q].
     split; [|exact Q]. apply C_create; [exact C|]. apply (A (next u)). lia.
   Qed.
 
   Lemma P_delete_some h u : GoodX (Some h) u -> Good (u_delete h u).
   Proof.
-    intros [A G]. split; [apply alloc_delete; exact A|]. intros S. destruct (G S) as [C Q].
+    intros [A G]. split; [apply alloc_delete; exact A|]. destruct G as [C Q].
     split; [|exact Q]. cbn [cs present u_delete]. eapply C_delete; [exact C | | right; reflexivity].
     destruct C as (_ & _ & _ & X). apply (X h eq_refl).
   Qed.
 
   Lemma P_delete_absent a u : Good u -> present u a = false -> Good (u_delete a u).
   Proof.
-    intros [A G] Hp. split; [apply alloc_delete; exact A|]. intros S. destruct (G S) as [C Q].
+    intros [A G] Hp. split; [apply alloc_delete; exact A|]. destruct G as [C Q].
     split; [|exact Q]. cbn [cs present u_delete]. eapply C_delete; [exact C | | left; reflexivity].
     destruct C as (_ & N & _ & _). destruct (cell_none_dec (cs u) a) as [E | E]; [exact E|].
     apply N in E. congruence.
@@ -263,7 +260,7 @@ Section P.
 
   Lemma P_query a u : Good u -> Good (u_query a u).
   Proof.
-    intros [A G]. split; [exact A|]. intros S. destruct (G S) as [C Q].
+    intros [A G]. split; [exact A|]. destruct G as [C Q].
     split; [exact C|]. cbn [qlog u_query]. constructor; [exact C | exact Q].
   Qed.
 
@@ -328,7 +325,7 @@ Section P.
 
   (* u' differs from u at most in the coordinates of the atoms ms *)
   Definition frame (ms : list nat) (u u' : ustate) : Prop :=
-    present u' = present u /\ bonds u' = bonds u /\ next u' = next u /\ stale u' = stale u /\
+    present u' = present u /\ bonds u' = bonds u /\ next u' = next u /\
     qlog u' = qlog u /\ cellmap (cs u') = cellmap (cs u) /\ cell_of (cs u') = cell_of (cs u) /\
     forall a, ~ In a ms -> posn (cs u') a = posn (cs u) a.
 
@@ -337,7 +334,7 @@ Section P.
 
   Lemma frame_trans ms u1 u2 u3 : frame ms u1 u2 -> frame ms u2 u3 -> frame ms u1 u3.
   Proof.
-    intros (a1 & a2 & a3 & a4 & a5 & a6 & a7 & a8) (b1 & b2 & b3 & b4 & b5 & b6 & b7 & b8).
+    intros (a1 & a2 & a3 & a5 & a6 & a7 & a8) (b1 & b2 & b3 & b5 & b6 & b7 & b8).
     repeat split; try congruence. intros a Ha. rewrite b8, a8 by assumption. reflexivity.
   Qed.
 
@@ -469,7 +466,7 @@ Section P.
     (forall m k, In m ms -> cell_of (cs u) m = Some k -> k = key_of size D (posn (cs u') m)) ->
     consistent (cs u') pr x.
   Proof.
-    intros (_ & _ & _ & _ & _ & Em & Ec & Ep) ([F I B N] & G & A & X) H.
+    intros (_ & _ & _ & _ & Em & Ec & Ep) ([F I B N] & G & A & X) H.
     split; [|rewrite Ec; auto].
     split.
     - intros a k Ha. rewrite Ec in Ha. destruct (in_dec Nat.eq_dec a ms) as [Hi | Hi].
@@ -480,24 +477,32 @@ Section P.
     - intros k. rewrite Em. apply N.
   Qed.
 
-  Lemma P_rot3 atom g u : Good u -> Good (rot3 size D atom g u).
+  Lemma writes_last (p : nat -> pos) : forall l u a, In a l -> posn (cs (writes l p u)) a = p a.
+  Proof.
+    induction l as [|m r IH]; intros u a Ha; [contradiction|]. cbn [writes fold_left].
+    destruct (in_dec Nat.eq_dec a r) as [Hr | Hr]; [apply IH; exact Hr|].
+    destruct Ha as [-> | Ha]; [|contradiction].
+    destruct (frame_writes r p r (u_write a (p a) u) (fun m H => H)) as (_ & _ & _ & _ & _ & _ & E).
+    fold (writes r p (u_write a (p a) u)). rewrite E by assumption.
+    cbn [cs u_write move posn]. apply upd_nat_same.
+  Qed.
+
+  Lemma P_rot3 atom g u : Good u -> Good (rot3 atom g u).
   Proof.
     intros [A G]. unfold rot3.
     set (pv := hd 0%nat (bonds u atom)). set (ms := moved u pv atom).
-    set (u' := for_i 3 (fun i => u_rotate pv atom (g i)) u).
-    pose proof (frame_rot_n 3 pv atom g u) as F. fold ms u' in F.
-    destruct F as (F1 & F2 & F3 & F4 & F5 & F6 & F7 & F8).
+    set (u' := for_i 2 (fun i => u_rotate pv atom (g i)) u).
+    change (for_each ms (fun m => u_write m (posn (cs u) m)) u') with (writes ms (posn (cs u)) u').
+    set (u2 := writes ms (posn (cs u)) u').
+    assert (F : frame ms u u2).
+    { eapply frame_trans; [apply (frame_rot_n 2 pv atom g u) | apply frame_writes; auto]. }
+    assert (R : forall m, In m ms -> posn (cs u2) m = posn (cs u) m) by (intros m Hm; apply writes_last; exact Hm).
+    pose proof F as (F1 & F2 & F3 & F5 & F6 & F7 & F8).
     split.
-    - intros a Ha. cbn [next present bonds] in *. rewrite F1, F2. apply A. rewrite <- F3. exact Ha.
-    - cbn [stale cs present qlog]. intros S. apply orb_false_iff in S as [S1 S2].
-      rewrite F4 in S1. destruct (G S1) as [C Q]. split; [|rewrite F5; exact Q].
-      rewrite F1. apply (consistent_frame ms u u'); [repeat split; assumption | exact C |].
-      intros m k Hm Hk.
-      assert (Hb : (match cell_of (cs u) m with Some k => negb (key_eqb k (key_of size D (posn (cs u') m))) | None => false end) = false).
-      { destruct (existsb_exists (fun m => match cell_of (cs u) m with Some k => negb (key_eqb k (key_of size D (posn (cs u') m))) | None => false end) ms) as [_ E].
-        destruct (match cell_of (cs u) m with Some k => negb (key_eqb k (key_of size D (posn (cs u') m))) | None => false end) eqn:Em; [|reflexivity].
-        rewrite E in S2; [discriminate | exists m; split; [exact Hm | exact Em]]. }
-      rewrite Hk in Hb. apply negb_false_iff in Hb. apply key_eqb_eq in Hb. exact Hb.
+    - intros a Ha. rewrite F1, F2. apply A. rewrite <- F3. exact Ha.
+    - destruct G as [C Q]. split; [|rewrite F5; exact Q].
+      rewrite F1. apply (consistent_frame ms u u2); [exact F | exact C |].
+      intros m k Hm Hk. rewrite (R m Hm). destruct C as ([Fr _ _ _] & _). apply Fr. exact Hk.
   Qed.
 
   (* ---- try_donor / try_acceptor --------------------------------------------------------- *)
@@ -589,7 +594,7 @@ Section P.
       + apply P_add, P_create, G.
       + cbn [present u_add]. apply present_create.
       + cbn [bonds u_add]. apply create_pv_h; [apply G | exact B].
-    - set (u1 := get_positions_with_two_bonds size D atom (f_rot o) u).
+    - set (u1 := get_positions_with_two_bonds atom (f_rot o) u).
       assert (G1 : Good u1) by (apply P_rot3; exact G).
       destruct (f_back o); [apply P_rewrite|]; apply P_rewrite, P_query, P_create_add, G1.
     - apply P_create_add, P_rot3, G.
@@ -614,7 +619,7 @@ Section P.
         - cbn [present u_add]. apply present_create.
         - cbn [bonds u_add]. apply create_pv_h; [apply G | exact B]. }
       destruct (f_again (o k)); [apply IH|]; exact G1.
-    - set (u1 := get_positions_with_two_bonds size D atom (f_rot (o k)) u).
+    - set (u1 := get_positions_with_two_bonds atom (f_rot (o k)) u).
       assert (G1 : Good u1) by (apply P_rot3; exact G).
       assert (G2 : Good (u_query (next u1) (create_add size D (f_p0 (o k)) (f_bs (o k)) u1))) by (apply P_query, P_create_add, G1).
       destruct (f_near (o k)).
@@ -676,35 +681,6 @@ Section P.
     unfold debump_run. apply for_each_ind. intros [[atoms f] | a] u' G; [apply P_set_dihedral | apply P_query]; exact G.
   Qed.
 
-  (* the debump window and the protocols that never rotate a registered atom
-     leave the ghost flag alone: for them the guarantee is unconditional *)
-  Lemma stale_rewrite a p u : stale (rewrite size D a p u) = stale u.
-  Proof. unfold rewrite. destruct (present u a); reflexivity. Qed.
-
-  Lemma stale_set_dihedral atoms f u : stale (set_dihedral_angle size D atoms f u) = stale u.
-  Proof.
-    unfold set_dihedral_angle. apply (for_each_ind (fun u' => stale u' = stale u)); [|reflexivity].
-    intros a u' E. rewrite stale_rewrite. exact E.
-  Qed.
-
-  Lemma stale_debump_run sc u : stale (debump_run size D sc u) = stale u.
-  Proof.
-    unfold debump_run. apply (for_each_ind (fun u' => stale u' = stale u)); [|reflexivity].
-    intros [[atoms f] | a] u' E; [rewrite stale_set_dihedral | cbn [stale u_query]]; exact E.
-  Qed.
-
-  Lemma stale_remove_delete_all l u : stale (remove_delete_all l u) = stale u.
-  Proof.
-    unfold remove_delete_all. apply (for_each_ind (fun u' => stale u' = stale u)); [|reflexivity].
-    intros a u' E. exact E.
-  Qed.
-
-  Lemma stale_flip_init atoms f news u : stale (flip_init size D atoms f news u) = stale u.
-  Proof.
-    unfold flip_init. apply (for_each_ind (fun u' => stale u' = stale u)); [intros n u' E; exact E|].
-    apply stale_set_dihedral.
-  Qed.
-
   (* ---- histories ---------------------------------------------------------------------------- *)
 
   Theorem run_call_good c u : Good u -> Good (run_call size D c u).
@@ -741,12 +717,12 @@ Section P.
   Lemma assign_aux : forall l u, Inv (cs u) -> NoDup l -> (forall a, In a l -> cell_of (cs u) a = None) ->
     let u' := for_each l (u_add size D) u in
     Inv (cs u') /\ (forall a, cell_of (cs u') a <> None <-> cell_of (cs u) a <> None \/ In a l) /\
-    present u' = present u /\ bonds u' = bonds u /\ next u' = next u /\ stale u' = stale u /\ qlog u' = qlog u.
+    present u' = present u /\ bonds u' = bonds u /\ next u' = next u /\ qlog u' = qlog u.
   Proof.
     induction l as [|a r IH]; intros u I N H; cbv zeta; unfold for_each; cbn [fold_left].
     - split; [exact I|]. split; [intros a; cbn [In]; tauto|]. repeat split.
     - inversion N as [|? ? Na Nr]; subst.
-      destruct (IH (u_add size D a u)) as (I1 & R1 & E1 & E2 & E3 & E4 & E5).
+      destruct (IH (u_add size D a u)) as (I1 & R1 & E1 & E2 & E3 & E5).
       + cbn [cs u_add]. apply inv_add; [exact I | apply H; left; reflexivity].
       + exact Nr.
       + intros b Hb. cbn [cs u_add]. rewrite cell_of_add.
@@ -761,14 +737,14 @@ Section P.
     Good (assign_cells size D atoms u0).
   Proof.
     intros N H A. unfold assign_cells.
-    set (b := mkU (mk (fun _ => []) (fun _ => None) (posn (cs u0))) (present u0) (bonds u0) (next u0) false []).
-    destruct (assign_aux atoms b) as (I1 & R1 & E1 & E2 & E3 & E4 & E5).
+    set (b := mkU (mk (fun _ => []) (fun _ => None) (posn (cs u0))) (present u0) (bonds u0) (next u0) []).
+    destruct (assign_aux atoms b) as (I1 & R1 & E1 & E2 & E3 & E5).
     - cbn [cs b]. apply (inv_init size D).
     - exact N.
     - reflexivity.
     - split.
       + intros a Ha. rewrite E3 in Ha. rewrite E1, E2. apply A. exact Ha.
-      + intros _. split; [|rewrite E5; constructor].
+      + split; [|rewrite E5; constructor].
         split; [exact I1|]. rewrite E1. cbn [present b]. split; [|split].
         * intros a Ha. apply R1 in Ha as [Ha | Ha]; [cbn in Ha; congruence | apply H; exact Ha].
         * intros a Ha. left. apply R1. right. apply H. exact Ha.
@@ -791,7 +767,6 @@ Section P.
   Theorem histories_of_protocols atoms u0 cl :
     NoDup atoms -> (forall a, In a atoms <-> present u0 a = true) -> alloc u0 ->
     let u := run_calls size D cl (assign_cells size D atoms u0) in
-    stale u = false ->
     (forall q, In q (qlog u) -> q_present q (q_atom q) = true ->
        forall b c0, 0 <= c0 <= D * size ->
        (In b (filter (within c0 (q_cs q) (q_atom q)) (get_near_cells size (q_cs q) (q_atom q))) <->
@@ -800,85 +775,53 @@ Section P.
        (In b (filter (within c0 (cs u) a) (get_near_cells size (cs u) a)) <->
         present u b = true /\ b <> a /\ within c0 (cs u) a b = true)).
   Proof.
-    intros N H A u S.
+    intros N H A u.
     destruct (run_calls_good cl _ (P_assign atoms u0 N H A)) as [_ G]. fold u in G.
-    destruct (G S) as [C Q]. split.
+    destruct G as [C Q]. split.
     - intros q Hq Ha b c0 Hc. rewrite Forall_forall in Q. apply consistent_query_exact; auto. apply (Q q Hq).
     - intros a Ha b c0 Hc. apply consistent_query_exact; auto.
   Qed.
 End P.
 
-(* ---- C14-F6: the three 120-degree rotations are NOT disciplined -------------------------- *)
+(* ---- C14-F6 regression: a registered atom on a cell boundary ---------------------------- *)
 
 (* water oxygen 0 with H1 = 1 (pivot) and H2 = 2 at x = 5.0 exactly (cell 5); atom 3 at
-   x = -0.1.  Coordinates are numerators over D = 10, cell size 5.  The third rotation
-   brings H2 back to x = 4.8 (any value below 5.0 does, 4.999999999999999 in the real
-   run): it is still listed in cell 5, and the query from atom 3 (cell -5) misses it. *)
+   x = 0.5.  Coordinates are numerators over D = 10, cell size 5.  Whatever the two
+   rotations produce, H2 is written back to x = 5.0 and the query from atom 3 finds it.
+   (Before e1a3cf3 a third rotation brought it back to 4.999999999999999, listed in cell 5
+   but lying in cell 0.) *)
 Definition f6_u0 : ustate :=
   mkU (mk (fun _ => []) (fun _ => None)
-          (fun a => match a with 0%nat => (40, 0, 0) | 1%nat => (38, 8, 0) | 2%nat => (50, 0, 0) | _ => (-1, 0, 0) end))
+          (fun a => match a with 0%nat => (40, 0, 0) | 1%nat => (38, 8, 0) | 2%nat => (50, 0, 0) | _ => (5, 0, 0) end))
       (fun a => Nat.ltb a 4) (fun a => match a with 0%nat => [1%nat; 2%nat] | 1%nat => [0%nat] | 2%nat => [0%nat] | _ => [] end)
-      4 false [].
+      4 [].
 Definition f6_u : ustate := assign_cells 5 10 [0%nat; 1%nat; 2%nat; 3%nat] f6_u0.
-Definition f6_g (i m : nat) : pos := match i with 0%nat => (41, 9, 3) | 1%nat => (41, -2, -9) | _ => (48, 0, 0) end.
+Definition f6_g (i m : nat) : pos := match i with 0%nat => (41, 9, 3) | _ => (41, -2, -9) end.
 
-Theorem get_positions_refuted :
-  Good 5 10 f6_u /\
-  let u' := get_positions_with_two_bonds 5 10 0%nat f6_g f6_u in
-  stale u' = true /\ present u' 3%nat = true /\ present u' 2%nat = true /\
-  within 50 (cs u') 3%nat 2%nat = true /\ ~ In 2%nat (get_near_cells 5 (cs u') 3%nat).
-Proof.
-  split.
-  - apply P_assign; try lia.
-    + repeat constructor; cbn; intuition lia.
-    + intros a. cbn [f6_u0 present In]. destruct a as [|[|[|[|a]]]]; cbn; intuition (try lia; try discriminate).
-    + intros a Ha. cbn [f6_u0 next present bonds] in *. split.
-      * apply Nat.ltb_ge. exact Ha.
-      * destruct a as [|[|[|a]]]; try lia. reflexivity.
-  - vm_compute. repeat split; try reflexivity. intros [H | [H | H]]; try discriminate; exact H.
-Qed.
+Example get_positions_regression :
+  let u' := get_positions_with_two_bonds 0%nat f6_g f6_u in
+  posn (cs u') 2%nat = (50, 0, 0) /\ cell_of (cs u') 2%nat = Some (5, 0, 0) /\
+  filter (within 50 (cs u') 3%nat) (get_near_cells 5 (cs u') 3%nat) = [0%nat; 1%nat; 2%nat].
+Proof. vm_compute. repeat split. Qed.
 
 (* non-vacuity of the history theorem: a window with a rotation, a created and
-   re-bucketed hydrogen and queries, ending with stale = false and a non-empty answer *)
+   re-bucketed hydrogen, a get_positions call and queries, with a non-empty answer *)
 Example history_nonvacuous :
   let o := mkFin false (42, 5, 0) [0%nat] (fun i m => (42, 5, Z.of_nat i)) (Some (43, 4, 1)) (0, 0, 0) false true false in
+  let t := mkTry true (41, -3, 2) [0%nat] (fun i m => (60, 60, Z.of_nat i)) true true (39, 2, -5) (Some (41, -3, 2)) in
   let u0 := mkU (mk (fun _ => []) (fun _ => None)
                     (fun a => match a with 0%nat => (40, 0, 0) | 1%nat => (38, 8, 0) | _ => (-1, 0, 0) end))
-                (fun a => Nat.ltb a 3) (fun a => match a with 0%nat => [1%nat] | 1%nat => [0%nat] | _ => [] end) 3 false [] in
-  let u := run_calls 5 10 [CSetDihedral [1%nat] (fun _ => (38, 9, 1)); CAlcFinalize o 0%nat; CDetect [0%nat]] (assign_cells 5 10 [0%nat; 1%nat; 2%nat] u0) in
-  stale u = false /\ List.length (qlog u) = 19%nat /\ present u 3%nat = true /\
-  filter (within 50 (cs u) 0%nat) (get_near_cells 5 (cs u) 0%nat) = [2%nat; 1%nat; 3%nat].
+                (fun a => Nat.ltb a 3) (fun a => match a with 0%nat => [1%nat] | 1%nat => [0%nat] | _ => [] end) 3 [] in
+  let u := run_calls 5 10 [CSetDihedral [1%nat] (fun _ => (38, 9, 1)); CAlcFinalize o 0%nat; CAlcTryAcceptor t 0%nat; CDetect [0%nat]] (assign_cells 5 10 [0%nat; 1%nat; 2%nat] u0) in
+  List.length (qlog u) = 19%nat /\ present u 3%nat = true /\ present u 4%nat = true /\
+  posn (cs u) 3%nat = (43, 4, 1) /\
+  filter (within 50 (cs u) 0%nat) (get_near_cells 5 (cs u) 0%nat) = [2%nat; 4%nat; 1%nat; 3%nat].
 Proof. vm_compute. repeat split. Qed.
 
 Theorem T_protocol_assign_cells_disciplined : forall size D, 0 < size -> 0 < D ->
   forall atoms u0, NoDup atoms -> (forall a, In a atoms <-> present u0 a = true) -> alloc u0 ->
-  Good size D (assign_cells size D atoms u0) /\ stale (assign_cells size D atoms u0) = false.
-Proof.
-  intros size D Hs HD atoms u0 N H A. split; [exact (P_assign size D atoms u0 N H A)|].
-  destruct (assign_aux size D atoms
-    (mkU (mk (fun _ => []) (fun _ => None) (posn (cs u0))) (present u0) (bonds u0) (next u0) false []))
-    as (_ & _ & _ & _ & _ & E & _); [apply inv_init | exact N | reflexivity | exact E].
-Qed.
-
-Theorem T_protocol_set_dihedral_angle_disciplined : forall size D atoms f u,
-  Good size D u ->
-  Good size D (set_dihedral_angle size D atoms f u) /\ stale (set_dihedral_angle size D atoms f u) = stale u.
-Proof. intros. split; [apply P_set_dihedral; assumption | apply stale_set_dihedral]. Qed.
-
-Theorem T_protocol_debump_window_disciplined : forall size D sc u,
-  Good size D u ->
-  Good size D (debump_run size D sc u) /\ stale (debump_run size D sc u) = stale u.
-Proof. intros. split; [apply P_debump_run; assumption | apply stale_debump_run]. Qed.
-
-Theorem T_protocol_remove_delete_disciplined : forall size D dels u,
-  Good size D u ->
-  Good size D (remove_delete_all dels u) /\ stale (remove_delete_all dels u) = stale u.
-Proof. intros. split; [apply P_remove_delete_all; assumption | apply stale_remove_delete_all]. Qed.
-
-Theorem T_protocol_flip_init_disciplined : forall size D atoms f news u,
-  Good size D u ->
-  Good size D (flip_init size D atoms f news u) /\ stale (flip_init size D atoms f news u) = stale u.
-Proof. intros. split; [apply P_flip_init; assumption | apply stale_flip_init]. Qed.
+  Good size D (assign_cells size D atoms u0).
+Proof. intros size D Hs HD atoms u0 N H A. exact (P_assign size D atoms u0 N H A). Qed.
 
 Theorem T_protocol_carboxylic_disciplined : forall size D u, Good size D u ->
   (forall steps, Good size D (carboxylic_init size D steps u)) /\
@@ -904,17 +847,17 @@ Proof.
   - apply P_water_try_acceptor, G.
 Qed.
 
-Theorem T_protocol_finalize_disciplined : forall size D, 0 < size -> 0 < D -> forall u, Good size D u ->
+Theorem T_protocol_finalize_disciplined : forall size D u, Good size D u ->
   (forall o atom, Good size D (alcoholic_finalize size D o atom u)) /\
   (forall fuel o atom, Good size D (water_finalize size D fuel o atom u)).
 Proof.
-  intros size D Hs HD u G. split; intros.
+  intros size D u G. split; intros.
   - apply P_alcoholic_finalize, G.
   - apply P_water_finalize, G.
 Qed.
 
-Theorem T_protocol_get_positions_partial : forall size D atom g u,
+Theorem T_protocol_get_positions_disciplined : forall size D atom g u,
   Good size D u ->
-  Good size D (get_positions_with_two_bonds size D atom g u) /\
-  Good size D (get_position_with_three_bonds size D atom g u).
+  Good size D (get_positions_with_two_bonds atom g u) /\
+  Good size D (get_position_with_three_bonds atom g u).
 Proof. intros. split; apply P_rot3; assumption. Qed.
